@@ -176,7 +176,8 @@ def run(ctx):
     if mv:
         ctx.sample(dict(name=scen[0]["name"], src=descs[mv[0]["s"] - 1]["rel"], dst=descs[mv[0]["d"] - 1]["rel"], event=mv[0]))
     verdicts = ctx.validate("ListingTrace", "ListingTrace.cfg", scen, label="event filter", relevant=lambda c: c.startswith("C15-"))
-    selfcheck(ctx, "ListingTrace", "ListingTrace.cfg", corrupted(scen, verdicts, descs), need=5)
+    if not ctx.violations:   # never let the self-check mask a violation
+        selfcheck(ctx, "ListingTrace", "ListingTrace.cfg", corrupted(scen, verdicts, descs), need=5)
 
 
 def replay(ctx, path):
